@@ -1,2 +1,69 @@
-(* Properties_C13.v -- placeholder, theorems follow *)
-From TP Require Import Term.
+(* Properties_C13.v — C13: state diffing never re-sends what is already in
+   effect. *)
+From TP Require Import Base Elem Term VT Oracle P_Diff P_Sync P_Step P_Bytes P_Run P_Props Tie_Output.
+Local Open Scope N_scope.
+
+(* an element whose attributes and character set are the ones in effect (as
+   left by the previous write or erase) transmits only the glyph's bytes -
+   through operator<< and as a bare write_element manipulator *)
+Theorem C13_same_rendition :
+  forall beh st l e,
+    ts_last st = Some l -> attr_eqb (ea l) (ea e) = true ->
+    cs_eqb (gcs (eg l)) (gcs (eg e)) = true ->
+    obytes beh st (WElem e) = wire (eg e) /\ obytes beh st (WRaw e) = wire (eg e).
+Proof.
+  intros beh st l e Hl Ha Hc. unfold obytes. cbn [step].
+  unfold optional_default_attribute, write_element. rewrite Hl. cbn [fst snd app ts_last].
+  rewrite Hl. unfold change_charset, change_attribute. rewrite Hc, Ha.
+  cbn [app render_all flat_map render]. rewrite app_nil_r. split; reflexivity.
+Qed.
+Print Assumptions C13_same_rendition.
+
+(* "already in effect on the terminal": under the invariant the belief is the
+   terminal's rendition, and the write leaves it untouched *)
+Theorem C13_in_effect_on_terminal :
+  forall cfg beh, (b_unicode_all beh = true -> unicode_all cfg = true) ->
+  forall st v l, Sync beh st v -> ts_last st = Some l ->
+    rend v = rend_of (ea l) /\ cs_ok beh (gcs (eg l)) v.
+Proof.
+  intros cfg beh Huni st v l S Hl. split; [exact (sy_rend _ _ _ S l Hl)|].
+  pose proof (sy_cs _ _ _ S) as H. unfold last_cs in H. rewrite Hl in H. exact H.
+Qed.
+
+(* after an erase, default-attribute text in the same character set is sent bare *)
+Theorem C13_after_erase :
+  forall beh st k l e,
+    ts_last (fst (step beh st (Erase k))) = Some l ->
+    attr_eqb default_attr (ea e) = true -> cs_eqb (gcs (eg l)) (gcs (eg e)) = true ->
+    obytes beh (fst (step beh st (Erase k))) (WElem e) = wire (eg e).
+Proof.
+  intros beh st k l e Hl Ha Hc.
+  destruct (C13_same_rendition beh (fst (step beh st (Erase k))) l e Hl) as [H _]; [|exact Hc|exact H].
+  revert Hl. cbn [step]. unfold to_default_attribute.
+  destruct (ts_last st) as [l0|]; cbn; intros Hl; inversion Hl; subst; exact Ha.
+Qed.
+
+Theorem C13_same_position :
+  forall beh st p, ts_cur st = Some p -> obytes beh st (Move p) = [].
+Proof.
+  intros beh st p Hc. unfold obytes. cbn [step]. unfold move_cursor. rewrite Hc. cbn [snd].
+  assert (pt_eqb p p = true) as ->.
+  { unfold pt_eqb. rewrite !N.eqb_refl. reflexivity. }
+  reflexivity.
+Qed.
+Print Assumptions C13_same_position.
+
+Theorem C13_same_visibility :
+  forall beh st,
+    (ts_vis st = Some true -> obytes beh st Show = []) /\
+    (ts_vis st = Some false -> obytes beh st Hide = []).
+Proof.
+  intros beh st. unfold obytes. cbn [step]. unfold show_hide. cbn [snd].
+  split; intros ->; reflexivity.
+Qed.
+Print Assumptions C13_same_visibility.
+
+Example C13_nonvacuous :
+  let e := mkElem (mkGlyph CsDec 113 0 0) (mkAttr (CLow 1) (CHigh 100) IBold true false true) in
+  obytes (mkBeh false false false false false) (mkTs (4, 2) (Some e) (Some (1, 1)) None None) (WElem e) = [113].
+Proof. reflexivity. Qed.
